@@ -80,6 +80,9 @@ type Ctx struct {
 	footprintReady bool
 	freshRefs      map[string]bool
 	curPos         token.Pos
+	qdecl          map[int]bool
+	bitInfo        map[string][2]int
+	declaredSym    map[string]bool
 }
 
 func newCtx(prog *Program, pkg *Pkg, mode Mode) *Ctx {
@@ -101,6 +104,7 @@ func (c *Ctx) sym(hint string) string {
 func (c *Ctx) declare(hint, sort string) Term {
 	s := c.sym(hint)
 	c.decls = append(c.decls, fmt.Sprintf("(declare-fun %s () %s)", s, sort))
+	c.markDeclared(s)
 	return Term{s, sort}
 }
 
@@ -109,8 +113,25 @@ func (c *Ctx) name(t Term, hint string) Term {
 		return t
 	}
 	s := c.sym(hint)
+	if strings.HasPrefix(t.Sort, "(Array") {
+		// arrays are named by a declared constant plus an equation, so that the name can appear inside triggers
+		// (solvers expand define-fun macros inside patterns and then reject ite/and)
+		c.decls = append(c.decls, fmt.Sprintf("(declare-fun %s () %s)", s, t.Sort), fmt.Sprintf("(assert (= %s %s))", s, t.S))
+		c.markDeclared(s)
+		return Term{s, t.Sort}
+	}
 	c.decls = append(c.decls, fmt.Sprintf("(define-fun %s () %s %s)", s, t.Sort, t.S))
+	if b, ok := c.bitInfo[t.S]; ok {
+		c.bitInfo[s] = b
+	}
 	return Term{s, t.Sort}
+}
+
+func (c *Ctx) markDeclared(s string) {
+	if c.declaredSym == nil {
+		c.declaredSym = map[string]bool{}
+	}
+	c.declaredSym[s] = true
 }
 
 func (c *Ctx) nameIfBig(t Term, hint string) Term {
@@ -127,6 +148,17 @@ func (c *Ctx) axiom(t Term) {
 }
 
 func (c *Ctx) raw(line string) { c.decls = append(c.decls, line) }
+
+// qfact records a quantified fact that totally defines a fresh symbol (copied rows, loop frames ...). Such facts are
+// unconditional truths, so they are asserted globally rather than kept in a path condition; "light" queries drop them
+// (fewer hypotheses is always sound for proving) which keeps safety obligations quantifier-free.
+func (c *Ctx) qfact(st *State, t Term) {
+	if c.qdecl == nil {
+		c.qdecl = map[int]bool{}
+	}
+	c.qdecl[len(c.decls)] = true
+	c.decls = append(c.decls, "(assert "+t.S+")")
+}
 
 func (c *Ctx) needStr() {
 	if c.strDecl {
@@ -237,14 +269,29 @@ func (c *Ctx) cover(st *State, label string, pos token.Pos) {
 }
 
 // Query renders the SMT-LIB text of an obligation.
-func (o *Obligation) Query(withModel bool) string {
+func (o *Obligation) Query(withModel bool) string { return o.QueryOpt(withModel, false) }
+
+// HasQFacts reports whether the full query contains droppable quantified facts.
+func (o *Obligation) HasQFacts() bool {
+	for i := range o.ctx.qdecl {
+		if i < o.NDecl {
+			return true
+		}
+	}
+	return false
+}
+
+func (o *Obligation) QueryOpt(withModel, light bool) string {
 	c := o.ctx
 	var b strings.Builder
 	if withModel {
 		b.WriteString("(set-option :produce-models true)\n")
 	}
 	b.WriteString("(set-logic ALL)\n")
-	for _, d := range c.decls[:o.NDecl] {
+	for i, d := range c.decls[:o.NDecl] {
+		if light && c.qdecl[i] {
+			continue
+		}
 		b.WriteString(d)
 		b.WriteByte('\n')
 	}
